@@ -61,14 +61,14 @@ theorem add_only_if_absent (ov : Overlay) (m : Layer) (k : Key) (s0 v : KS) (y :
 /-- index `i` as transaction `(A, D)` over snapshot rows `S` sees it through `ov` + its layer `m`:
 it means exactly the view, and every row the transaction added or deleted has an entry in `m` -/
 def PIdx (i : Nat) (ov : Overlay) (S A : List Row) (D : List Off) (m : Layer) : Prop :=
-  (∀ k, (ov.withMut m).sem k = some (keymap i (viewOf S A D) k)) ∧
+  (∀ k, (ov.withMut m).sem k = some (keymap i (viewRows S A D) k)) ∧
   (∀ a ∈ A, m.get (a.key i) ≠ none) ∧
   (∀ r ∈ S, r.off ∈ D → m.get (r.key i) ≠ none)
 
 theorem PIdx_add {i : Nat} {ov : Overlay} {S A : List Row} {D : List Off} {m : Layer}
-    (h : PIdx i ov S A D m) (x : Row) (hx : ∀ y ∈ viewOf S A D, y.key i ≠ x.key i) :
+    (h : PIdx i ov S A D m) (x : Row) (hx : ∀ y ∈ viewRows S A D, y.key i ≠ x.key i) :
     PIdx i ov S (A ++ [x]) D (m.ins (x.key i) (.add x.off)) := by
-  have hv : viewOf S (A ++ [x]) D = viewOf S A D ++ [x] := by simp [viewOf, List.append_assoc]
+  have hv : viewRows S (A ++ [x]) D = viewRows S A D ++ [x] := by simp [viewRows, List.append_assoc]
   refine ⟨?_, ?_, ?_⟩
   · intro k
     rw [hv, keymap_snoc i _ x k hx]
@@ -162,9 +162,9 @@ theorem PIdx_replace {i : Nat} {ov : Overlay} {S : List Row} {d : TDif} {m : Lay
     (hk : PW (fun r => r.key i) (d.view S)) (ho : OffsUniq (d.view S)) (hSo : OffsUniq S)
     (r : Row) (hr : r ∈ d.view S) (x : Row) (hx : r.key i = x.key i) :
     PIdx i ov S ((dropRow d r.off).1 ++ [x]) (dropRow d r.off).2 (m.ins (x.key i) (.upd x.off)) := by
-  have hv : viewOf S ((dropRow d r.off).1 ++ [x]) (dropRow d r.off).2 =
+  have hv : viewRows S ((dropRow d r.off).1 ++ [x]) (dropRow d r.off).2 =
       (d.view S).filter (fun y => y.off != r.off) ++ [x] := by
-    rw [← view_dropRow S d r.off ho]; simp [viewOf, List.append_assoc]
+    rw [← view_dropRow S d r.off ho]; simp [viewRows, List.append_assoc]
   have hnew : ∀ y ∈ (d.view S).filter (fun y => y.off != r.off), y.key i ≠ x.key i := by
     intro y hy e
     obtain ⟨hy1, hy2⟩ := List.mem_filter.mp hy
@@ -241,7 +241,7 @@ theorem tvinv_start (sti : Info) (h : TblInv sti) : TVInv sti (TDif.start sti) :
   subst hm'
   refine ⟨?_, by simp [TDif.start], by simp [TDif.start]⟩
   intro k
-  have : viewOf sti.rows (TDif.start sti).adds (TDif.start sti).dels = sti.rows := hv
+  have : viewRows sti.rows (TDif.start sti).adds (TDif.start sti).dels = sti.rows := hv
   rw [this, sem_withMut, h.agree i ov hi k]
   simp [FMap.get_empty, appO]
 
@@ -399,10 +399,10 @@ theorem tvinv_upd {sti : Info} {d d' : TDif} (off : Off) (row : Row) (hT : TblIn
         have hD : d'.dels = (dropRow d r.off).2 := by rw [← hok]
         have hn : d'.dn = d.dn := by rw [← hok]
         have hs : d'.ds = d.ds + row.size - r.size := by rw [← hok]
-        have hv1 : viewOf sti.rows (dropRow d r.off).1 (dropRow d r.off).2 =
+        have hv1 : viewRows sti.rows (dropRow d r.off).1 (dropRow d r.off).2 =
             (d.view sti.rows).filter (fun y => y.off != r.off) := view_dropRow sti.rows d r.off h.offs
         have hv : d'.view sti.rows = (d.view sti.rows).filter (fun y => y.off != r.off) ++ [row] := by
-          rw [← hv1, view_eq, hA, hD]; simp [viewOf, List.append_assoc]
+          rw [← hv1, view_eq, hA, hD]; simp [viewRows, List.append_assoc]
         have hnk : ∀ i, i < sti.idx.length →
             ∀ y ∈ (d.view sti.rows).filter (fun y => y.off != r.off), y.key i ≠ row.key i := by
           intro i hi y hy
